@@ -358,17 +358,109 @@ fn short_op(op: &Op) -> String {
     s.split([' ', '{']).next().unwrap_or("?").to_string()
 }
 
+/// First id of the scripted "lifecycle" histories (see `lifecycle_case`).
+pub const LIFECYCLE_BASE: u64 = 6_000_000;
+
+/// Scripted histories that drive appointments to the ends of their lives — a tracker reaching its
+/// last confirmation, a subscription running out with appointments and trackers attached — one block
+/// per poll, so that every durable write of those rare transitions is a crash point of its own.
+/// Returns the case and the index of the first operation of the focus window (crash points before it
+/// are not enumerated: the random `crash` histories cover those operations).
+pub fn lifecycle_case(seed: u64, id: u64, dir: &PathBuf) -> (Case, usize) {
+    use crate::world::{BlobKind, SigKind, TxRef};
+    let mut rng = crate::rng::Rng::stream(seed, id, 0xC3);
+    let expiry_variant = id % 2 == 1;
+    let grace = *rng.pick(&[0u32, 1, 2, 6]);
+    let duration = if expiry_variant { 3 + rng.below(5) as u32 } else { 500 };
+    let mut case = Case::new_cfg(seed, id, "crash", dir, Some((1000, duration, grace)));
+    let n_users = case.world.users.len().min(2);
+    let mut ops: Vec<Op> = Vec::new();
+    for u in 0..n_users {
+        ops.push(Op::Register { user: u });
+    }
+    let n_track = 1 + rng.usize(3).min(case.world.chans.len() - 2);
+    let mut vers: Vec<usize> = Vec::new();
+    let mut add = |case: &mut Case, rng: &mut crate::rng::Rng, ops: &mut Vec<Op>, chan: usize, user: usize| -> usize {
+        let target = 100 + rng.usize(300);
+        let ver = case.world.new_version(rng, chan, BlobKind::Valid, target);
+        let msg = case.world.versions[ver].msg(&case.world.chans);
+        let sig = case.world.sign(rng, Signer::User(user), &msg, SigKind::Good);
+        ops.push(Op::Add { signer: Signer::User(user), ver, sig, good: true });
+        ver
+    };
+    for c in 0..n_track {
+        let u = rng.usize(n_users);
+        vers.push(add(&mut case, &mut rng, &mut ops, c, u));
+        if rng.chance(30, 100) && n_users > 1 {
+            // the same channel watched for the other user too (two appointments, one locator)
+            let _ = add(&mut case, &mut rng, &mut ops, c, 1 - u);
+        }
+    }
+    // an appointment that is never triggered
+    let u = rng.usize(n_users);
+    let _ = add(&mut case, &mut rng, &mut ops, n_track, u);
+    // disputes: one block, or one block each
+    let spread = rng.chance(60, 100);
+    if spread {
+        for c in 0..n_track {
+            ops.push(Op::Mine { blocks: vec![vec![TxRef::Dispute(c)]] });
+            ops.push(Op::Poll);
+        }
+    } else {
+        ops.push(Op::Mine { blocks: vec![(0..n_track).map(TxRef::Dispute).collect()] });
+        ops.push(Op::Poll);
+    }
+    let focus;
+    if expiry_variant {
+        // penalties confirm (or not), then the subscriptions run out block by block
+        if rng.chance(60, 100) {
+            ops.push(Op::Mine { blocks: vec![vers.iter().map(|v| TxRef::Penalty(*v)).collect()] });
+            ops.push(Op::Poll);
+        }
+        focus = ops.len();
+        for _ in 0..(duration + grace + 3) {
+            ops.push(Op::Mine { blocks: vec![vec![]] });
+            ops.push(Op::Poll);
+        }
+    } else {
+        if spread {
+            for v in &vers {
+                ops.push(Op::Mine { blocks: vec![vec![TxRef::Penalty(*v)]] });
+                ops.push(Op::Poll);
+            }
+        } else {
+            ops.push(Op::Mine { blocks: vec![vers.iter().map(|v| TxRef::Penalty(*v)).collect()] });
+            ops.push(Op::Poll);
+        }
+        ops.push(Op::Mine { blocks: (0..96).map(|_| vec![]).collect() });
+        ops.push(Op::Poll);
+        focus = ops.len();
+        for _ in 0..(5 + n_track) {
+            ops.push(Op::Mine { blocks: vec![vec![]] });
+            ops.push(Op::Poll);
+        }
+    }
+    for u in 0..n_users {
+        let sig = case.world.sign(&mut rng, Signer::User(u), b"get subscription info", SigKind::Good);
+        ops.push(Op::GetSub { signer: Signer::User(u), sig, good: true });
+    }
+    case.max_steps = ops.len();
+    case.ops = ops.clone();
+    case.script = Some(ops);
+    (case, focus)
+}
+
 pub fn run(seed: u64, shard: u64, nshards: u64, cases: u64, max_points_per_case: usize, only: Option<(u64, Fault)>, rep: &mut Report) {
     panics::install();
     let dir = PathBuf::from(format!("/dev/shm/tv-e1c-{}", std::process::id()));
     std::fs::create_dir_all(&dir).unwrap();
     let ids: Vec<u64> = match &only {
         Some((c, _)) => vec![*c],
-        None => (0..cases).map(|i| 5_000_000 + shard + i * nshards).collect(),
+        None => (0..cases).map(|i| 5_000_000 + shard + i * nshards).chain((0..cases).map(|i| LIFECYCLE_BASE + shard + i * nshards)).collect(),
     };
     for id in ids {
         // ---- uninterrupted run (model-checked), counting crash points
-        let mut case = Case::new(seed, id, "crash", &dir);
+        let (mut case, focus_from) = if id >= LIFECYCLE_BASE { lifecycle_case(seed, id, &dir) } else { (Case::new(seed, id, "crash", &dir), 0) };
         case.probe = false;
         case.record_snaps = true;
         let pristine = case.world.fork();
@@ -384,7 +476,7 @@ pub fn run(seed: u64, shard: u64, nshards: u64, cases: u64, max_points_per_case:
         }
         let n_points = obs.count.load(Ordering::SeqCst);
         let names = obs.names.lock().unwrap().clone();
-        r.count("histories", 1);
+        r.count(if id >= LIFECYCLE_BASE { "lifecycle_histories" } else { "histories" }, 1);
         r.count("crash_points_in_histories", n_points as u64);
         let mut world0 = pristine;
         world0.versions = case.world.versions.clone();
@@ -413,6 +505,14 @@ pub fn run(seed: u64, shard: u64, nshards: u64, cases: u64, max_points_per_case:
                     boot_run.clear();
                 };
                 for (k, name) in names.iter().enumerate() {
+                    if focus_from > 0 {
+                        // lifecycle history: only the focus window
+                        let op: usize = name.rsplit('@').next().and_then(|o| o.parse().ok()).unwrap_or(0);
+                        if op >= focus_from {
+                            selected.push(k + 1);
+                        }
+                        continue;
+                    }
                     if name.ends_with("@boot") {
                         if name.starts_with("db.") || name.starts_with("rpc.") {
                             selected.push(k + 1);
